@@ -203,6 +203,7 @@ _MOV_STUBS = [
     'ANeigh::_xvalid -> symbolic xv[iech_in]; ASpaceObject::getNDim -> 2; OptDbg::query -> false',
     'BiTargetCheckDistance::isOK -> symbolic in[i] for the sample loaded in T2 and leaves the symbolic distance d[i] in _dist (read by the real getDistance()); the object is built by its real default constructor',
     'two harness subclasses of ABiTargetCheck in _bipts answering symbolic ok1[i], ok2[i]',
+    'the three checker stubs also state the property where they are called (a sample that an earlier filter rejects must not be accepted as a candidate) and answer no for such a sample, so that the candidate count stays the one of the entry pattern (concrete allocation sizes in arrangeInPlace); on correctly filtering code they are just the tables',
     'operator new(size_t, nothrow_t) -> nullptr (std::get_temporary_buffer of std::stable_sort: libstdc++ then runs its buffer-less in-place stable sort; same stub as C11.e)',
 ]
 _MOV_ASSUME = ['nmaxi > 0 (documented meaning: maximum number of samples; nmaxi <= 0 disables the selection step)',
